@@ -69,6 +69,10 @@ class Ctx:
         # stop exploring a job once it has produced several counterexamples outside the known findings
         # (a violation verdict needs no exhaustive exploration; a pass does, and is never cut short)
         eng.stop_fn = lambda: getattr(self, 'new_violations', 0) >= 6
+        # the coverage guard backs a "held" verdict; once the job has counterexamples in hand the verdict does not rest on
+        # coverage (and a path that died in a RecursionError may not have recorded all of its decisions)
+        guard = eng.partition_guard
+        eng.partition_guard = lambda: None if getattr(self, 'new_violations', 0) else guard()
         return eng
 
     # ---- obligations
